@@ -138,7 +138,14 @@ type subNode struct {
 
 func (n *subNode) LogPointData(key, prefix string, p edge.PointMessage) {
 	wave, _ := p.Fields()["wave"].(int64)
+	round, _ := p.Fields()["round"].(int64)
 	n.w.pmu.Lock()
+	if round != n.w.round {
+		// a point of an earlier probe: that probe returned as soon as every task had seen its first second-wave
+		// point, the rest of its points may be forked later - even to a task that was started in between
+		n.w.pmu.Unlock()
+		return
+	}
 	n.w.seen[n.task] = append(n.w.seen[n.task], arrival{db: p.Database(), rp: p.RetentionPolicy(), wave: int(wave)})
 	n.w.pcond.Broadcast()
 	n.w.pmu.Unlock()
@@ -166,11 +173,13 @@ func (w *world) subscriptions(tasks []string) map[string]string {
 	}
 	w.pmu.Lock()
 	w.seen = map[string][]arrival{}
+	w.round++
+	round := w.round
 	w.pmu.Unlock()
 	now := time.Now()
 	for wave := 1; wave <= 2; wave++ {
 		for _, d := range probeDBRPs {
-			pt, err := imodels.NewPoint("probe", nil, map[string]any{"wave": int64(wave)}, now)
+			pt, err := imodels.NewPoint("probe", nil, map[string]any{"wave": int64(wave), "round": round}, now)
 			if err != nil {
 				rt.Fatalf("probe point: %v", err)
 			}
@@ -239,6 +248,7 @@ type world struct {
 	pmu   sync.Mutex
 	pcond *sync.Cond
 	seen  map[string][]arrival
+	round int64 // number of the current probe; points of earlier probes are ignored
 	// onTx, if set, is called around every Update transaction of the task_store namespace.
 	onTx func(phase string, ops []rt.TxOp, err error)
 }
